@@ -4,6 +4,7 @@ import ChfVerif.Lemmas.BerStructRT
 import ChfVerif.Lemmas.BerSafe
 import ChfVerif.Lemmas.BerMarshalSafe
 import ChfVerif.Gen.Schema
+import ChfVerif.Gen.AsnGlobals
 /-
   C05 — decode(encode(v)) = v.
 
@@ -280,5 +281,46 @@ example : Canon
     (.struct (.cons .nil (.cons (.bool true) (.cons (.choice 2 (.cons .nil (.cons (.int 7) .nil))) .nil)))) := by
   refine .struct (.absent rfl (.present (.ptr .bool) (.present ?_ .nil)))
   exact .choice (v := .int 7) (by decide) (.there (.here (.enum ⟨by decide, by decide⟩))) rfl rfl
+
+/-! ### histories of calls: the octets marshal returns are a value, not a view of storage shared with later calls
+
+  `marshal` / `unmarshal` of the model are functions.  The Go procedures are, as long as no call leaves anything behind in a
+  package-level variable (Model/CodecState.lean).  That no variable of cdr/asn can be changed by a call is read off the
+  source on every run (Gen/AsnGlobals.lean) and checked here by `decide`; the run-time side is the `H` operation of the
+  ber stream (results kept across later calls and other goroutines, arguments overwritten, then compared and decoded). -/
+
+open Chf.CodecState in
+/-- regenerated from the working tree: nothing outside init assigns to, takes the address of, or calls a method on a
+    package-level variable of cdr/asn (reflect.Type handles excepted), in the package or from its importers -/
+theorem C05_codec_globals_frozen : allFrozen Gen.asnGlobals = true := by decide
+
+/-- marshal, then unmarshal into a fresh variable: one call of the round trip -/
+def roundTrip (i : Ty × Params × Val) : Res Val :=
+  match marshal i.1 i.2.1 i.2.2 with
+  | .ok b => unmarshal i.1 i.2.1 b
+  | .err => .err
+  | .panic => .panic
+
+open Chf.CodecState in
+/-- C05 over histories: let `impl` be any procedure over the package-level store that respects the regenerated facts and
+    answers single calls from the initial store like the model (the correspondence run).  Then in EVERY history of calls —
+    whatever was marshalled before — every value of the domain of `C05` that marshals comes back as itself. -/
+theorem C05_history {V : Type} (impl : Store V → (Ty × Params × Val) → Res Val × Store V)
+    (hr : Respects Gen.asnGlobals impl) (g : Store V) (hcorr : ∀ i, (impl g i).1 = roundTrip i)
+    (hist : List (Ty × Params × Val)) (t : Ty) (p : Params) (v : Val)
+    (ht : rtTy t = true) (hp : rtParams p = true) (hv : Canon t v)
+    (b : Bytes) (hm : marshal t p v = .ok b) (hl : b.length < 4611686018427387904) :
+    (impl (after impl g hist) (t, p, v)).1 = .ok v := by
+  rw [history_independent C05_codec_globals_frozen hr g hist, hcorr]
+  simp only [roundTrip, hm]
+  exact C05 t p v ht hp hv b hm hl
+
+open Chf.CodecState in
+/-- … and a whole history answers item by item what the single calls answer (the Lean driver's answer to an `H` line) -/
+theorem C05_history_answers {V : Type} (impl : Store V → (Ty × Params × Val) → Res Val × Store V)
+    (hr : Respects Gen.asnGlobals impl) (g : Store V) (hcorr : ∀ i, (impl g i).1 = roundTrip i)
+    (hist : List (Ty × Params × Val)) : answers impl g hist = hist.map roundTrip := by
+  rw [answers_eq_map C05_codec_globals_frozen hr g hist]
+  exact List.map_congr_left (fun i _ => hcorr i)
 
 end Chf.Props.C05
